@@ -334,8 +334,10 @@ _S5 = {
     "C07": "cluster mode inherits late metadata from the C02 chains",
     "C11": "the configured number of cursors partitions changes across restarts, cluster programs read their own writes and half of them read the log on every fetch, two cursor ids whose keys collide under the partitioning hash",
     "C12": "assignments are asked for while a lagging node applies the committed operations (API goroutines next to the FSM goroutine)",
-    "C15": "stores to shared memory in server/api.go are scheduling points; in 40% of the programs admin's reads run on other API goroutines next to the judged call",
-    "C17": "server/encryption is instrumented and its stores to shared memory are scheduling points (the one handler of a partition is shared by its subscription goroutines)",
+    "C15": "stores to shared memory in server/api.go are scheduling points; in 40% of the programs admin's reads run on other API goroutines next to the judged call; a stream on subj.foo.1 and PublishToSubject to it (a grant on subj.foo says nothing about it)",
+    "C10": "a stop time on an empty log is judged by the one clause that holds under any reading (nothing stamped after the stop time is delivered)",
+    "C19": "configuration files that name only the switch spell it flat (telemetry.enabled) in half of the programs",
+    "C17": "master keys made of hexadecimal digits with neighbours that differ in the case of one letter; server/encryption is instrumented and its stores to shared memory are scheduling points (the one handler of a partition is shared by its subscription goroutines)",
 }
 for _k, _v in _S5.items():
     PROPS[_k]["technique"] += "; fifth session: " + _v
